@@ -610,6 +610,12 @@ class Blocks(_typing.MutableMapping[str, str]):
             # multiple of encryption block size. It does not cary any data.
             if block_id.upper() != "PB":
                 self[block_id] = block_data
+            elif not _tools.ascii_printable(block_data):
+                raise HeaderError(
+                    f"Block {block_id} data is invalid. "
+                    f"Expecting ASCII printable characters. "
+                    f"Data: '{block_data}'"
+                )
 
         return i
 
